@@ -5,7 +5,7 @@ import re
 from .. import gen_circuit as G
 from .. import gen_netlist as N
 from .. import hier as H
-from ..simutil import int_to_row, row_to_int, lanes_mask, diff_lanes, KRandom
+from ..simutil import int_to_row, row_to_int, lanes_mask, diff_lanes, KRandom, parse_via
 
 ID = 'C11'
 TECHNIQUE = 'runtime monitoring: seeded netlist descriptions are rendered to randomized but grammar-conforming Verilog / bench text, parsed and resolved by the real code and simulated by the real LogicSim; port order and truth table are compared with an independent evaluation of the description'
@@ -109,7 +109,7 @@ def verilog_case(ctx, rng, idx):
     ctx.count('verilog_texts')
     lib = getattr(T, desc['lib'])
     with ctx.guard('parse-raises', case):
-        c = verilog.parse(text, tlib=lib, branchforks=bf)
+        c = parse_via(verilog, text, rng, ctx, tlib=lib, branchforks=bf)
         c.resolve_tlib_cells(lib)
         t1 = truth(ctx, case, c, flat, f'verilog ({desc["lib"]}, branchforks={bf})')
         if t1 is not None and idx % 3 == 0:
@@ -145,7 +145,7 @@ def bench_case(ctx, rng, idx):
     if any(o['sig'] in read for o in net['outputs']):
         ctx.count('bench_outputs_read')
     with ctx.guard('parse-raises', case):
-        c = bench.parse(text)
+        c = parse_via(bench, text, rng, ctx, name='top')
         truth(ctx, case, c, net, 'bench')
     ctx.case(None, len(net['gates']) >= 3, key=text)
     if idx < 1:
@@ -218,7 +218,7 @@ def replay(case, ctx):
         lib = getattr(T, case['lib'])
         flat = N.flat_net(case['desc'])
         with ctx.guard('parse-raises', case):
-            c = verilog.parse(case['text'], tlib=lib, branchforks=case['branchforks'])
+            c = parse_via(verilog, case['text'], None, ctx, tlib=lib, branchforks=case['branchforks'])
             c.resolve_tlib_cells(lib)
             truth(ctx, case, c, flat, 'verilog replay')
         ctx.case(None, True, key=case['text'])
